@@ -258,6 +258,9 @@ func (w *Worker) strLess(x, y *Term) *Term {
 func (w *Worker) unop(s *State, x *ssa.UnOp, v Value) Value {
 	switch x.Op {
 	case token.MUL:
+		if op, isOp := v.(OpaqueV); isOp {
+			return op
+		}
 		p, ok := v.(Ptr)
 		if !ok {
 			panic(fmt.Sprintf("load through %T", v))
